@@ -86,3 +86,39 @@ func c19wrappers(c *Ctx) {
 	sortStrings(bad)
 	c.R.Check(len(bad) == 0 && sites >= 2, rule, redisPkg+".RedisLock#no-shared-verdict", "the methods of RedisLock use no package-level state besides the two scripts (nothing through which one instance's attempt could answer another's)", "-", fmt.Sprintf("%d references; %v", sites, bad), bad, sites)
 }
+
+// c19synchronous (R8, round 5): the key is freed — and taken — only by the API call that asked for it, while it runs.
+// No method of RedisLock (nor a helper only they use) starts a goroutine, a timer or a GoSafe task: a release retried
+// in the background runs the owner-checked delete with this instance's id later, when the same instance may have
+// acquired the lock again — the retry then deletes the new lease and a second instance gets in (seed r5-C19-3).
+func c19synchronous(c *Ctx) {
+	rule := "C19.R8"
+	var roots []*ssa.Function
+	for _, f := range c.P.AllFuncs(redisPkg) {
+		if f.Parent() == nil && f.Signature.Recv() != nil && strings.HasSuffix(typeString(f.Signature.Recv().Type()), redisPkg+".RedisLock") {
+			roots = append(roots, f)
+		}
+	}
+	var bad []string
+	n := 0
+	for _, r := range roots {
+		walkWithClosures(r, func(g *ssa.Function) {
+			n++
+			for _, b := range g.Blocks {
+				for _, ins := range b.Instrs {
+					switch x := ins.(type) {
+					case *ssa.Go:
+						bad = append(bad, c.P.Pos(x.Pos())+": "+r.Name()+" starts a goroutine")
+					case ssa.CallInstruction:
+						name := calleeName(x.Common())
+						if strings.HasPrefix(name, mod+"core/threading.") || name == "time.AfterFunc" || name == "time.NewTimer" || name == "time.NewTicker" {
+							bad = append(bad, c.P.Pos(ins.Pos())+": "+r.Name()+" defers work to "+strings.TrimPrefix(name, mod))
+						}
+					}
+				}
+			}
+		})
+	}
+	sortStrings(bad)
+	c.R.Check(len(bad) == 0 && len(roots) >= 5, rule, redisPkg+".RedisLock#synchronous", "no method of RedisLock starts a goroutine, timer or background task: scripts run only inside the API call that asked for them", "-", fmt.Sprintf("%d methods; %v", len(roots), bad), bad, n)
+}
